@@ -372,6 +372,44 @@ def _live(part):
         rig.reset_lazies()
 
 
+WAPTOPS = ["/wap.wml", "/m+", "/w(ap", "/wap/", "/WAP", "/wap$", "/w[a]p", "/wap|x", "/w.p", "/wap*", "/mobile/wap", "/^wap", "/wa?p", "/wap\\d"]
+
+
+def _shard_waptop(shard, seed, tier):
+    """The WAP prefix is configuration: whatever characters it contains, it is a literal path prefix."""
+    part = core.Partial()
+    for top in shard:
+        c = _config_for(ref.SHIPPED_ORDER)
+        c.set("protocols.wap.WAPProtocol", "waptop", top)
+        try:
+            paths = {top, top + "/", top + "/x", top + "?q", top + "x", top + "/x/y", "/" + top.strip("/"), top.lower(), top.upper(), "/wap/x", "/x" + top, "/x"}
+            # near misses: each character of the prefix replaced by another one, dropped, or doubled
+            for i in range(1, len(top)):
+                for r in ("-", "a", "", top[i] * 2, "/"):
+                    paths.add(top[:i] + r + top[i + 1:] + "/x")
+            for pth in sorted(paths):
+                for method in ("GET", "HEAD"):
+                    line = ("%s %s HTTP/1.0\r\n" % (method, pth)).encode()
+                    for hdr in (b"\r\n", b"Accept: text/vnd.wap.wml\r\n\r\n"):
+                        got, _ = _winner(ref.SHIPPED_ORDER, line, False, hdr)
+                        headers = {}
+                        for hl in hdr.split(b"\r\n"):
+                            if b":" in hl:
+                                k, v = hl.split(b":", 1)
+                                headers[k.decode().lower()] = v.decode()
+                        want = next((p for p in ref.SHIPPED_ORDER if ref.accepts(p, line.decode().rstrip("\r\n"), False, headers, waptop=top)), None)
+                        part.evaluations += 1
+                        part.transitions += 1
+                        part.state("waptop", top, pth, method, hdr)
+                        part.outcome("waptop", top, got if not isinstance(got, tuple) else "exc", want)
+                        if got != want:
+                            part.violation("waptop|%s|%s|%s|%s" % (top, method, pth, len(hdr) > 2), "waptop = %r: the line %r (headers %r) is claimed by %r, the documented rule (literal prefix %r on a path boundary) gives %r" % (top, line, hdr, got, top, want),
+                                           {"kind": "waptop", "top": top})
+        finally:
+            c.set("protocols.wap.WAPProtocol", "waptop", "/wap")
+    return part
+
+
 def _shard_aux(shard, seed, tier):
     part = core.Partial()
     if shard == "sniff":
@@ -383,6 +421,9 @@ def _shard_aux(shard, seed, tier):
 
 
 def replay(case):
+    if case.get("kind") == "waptop":
+        p = _shard_waptop([case["top"]], 0, "quick")
+        return (p.violations[0][0], p.violations[0][1]) if p.violations else None
     part = core.Partial()
     if case["kind"] == "line":
         bad = _check_line(part, case["line"], case["tls"], case["hdr"], orders())
@@ -397,7 +438,12 @@ def replay(case):
     return None
 
 
+def _run_waptop(ck):
+    ck.pmap(_shard_waptop, [[t] for t in WAPTOPS])
+
+
 def run(ck):
+    _run_waptop(ck)
     ls = lines(ck.tier)
     idx = list(enumerate(ls))
     if ck.seed:
